@@ -1,1 +1,49 @@
-From PC Require Import Model.VConstraint.
+(* C15 — constraint text round-trips; range operators and bumps are monotone.
+   Proved here: the bump and range-operator half.  The text round trip is decided by the
+   correspondence run (str() of every model result equals the implementation's, byte for byte) and
+   the oracle (re-parse and compare on regular probes; reference specifier syntax), not by a theorem. *)
+From Coq Require Import List Bool NArith String.
+From PC Require Import Base.Cmp Base.Result Model.Pep440 Spec.Pep440Spec Spec.Specifier Model.VConstraint
+     Proofs.VersionFacts Proofs.RangeSpec Proofs.SpecifierAgree Proofs.Bumps.
+Import ListNotations.
+Open Scope string_scope.
+
+Theorem C15_next_major : forall v, wf v = true -> is_final (next_major v) = true /\ vltb v (next_major v) = true.
+Proof. exact next_major_spec. Qed.
+Print Assumptions C15_next_major.
+Theorem C15_next_minor : forall v, wf v = true -> is_final (next_minor v) = true /\ vltb v (next_minor v) = true.
+Proof. exact next_minor_spec. Qed.
+Print Assumptions C15_next_minor.
+Theorem C15_next_patch : forall v, wf v = true -> is_final (next_patch v) = true /\ vltb v (next_patch v) = true.
+Proof. exact next_patch_spec. Qed.
+Print Assumptions C15_next_patch.
+Theorem C15_next_breaking : forall v, wf v = true ->
+  is_final (next_breaking v) = true /\ vltb v (next_breaking v) = true /\
+  epoch (next_breaking v) = epoch v /\ rel_lt (rel v) (rel (next_breaking v)) = true.
+Proof. exact next_breaking_spec. Qed.
+Print Assumptions C15_next_breaking.
+
+(* ^V admits V and rejects its upper bound together with every version of the bound's release that is
+   not above it (the bound itself, its pre-releases and dev releases, and local builds thereof) *)
+Theorem C15_caret : forall v, wf v = true ->
+  r_allows (caret_range v) v = true /\
+  forall x, wf x = true -> same_class x (next_breaking v) = true -> vltb (next_breaking v) x = false ->
+    r_allows (caret_range v) x = false.
+Proof. exact caret_spec. Qed.
+Print Assumptions C15_caret.
+Theorem C15_tilde : forall v, wf v = true ->
+  let hi := if Nat.eqb (List.length (rel v)) 1 then next_major (stable v) else next_minor (stable v) in
+  is_final hi = true /\ vltb v hi = true /\
+  r_allows (tilde_range v) v = true /\
+  forall x, wf x = true -> same_class x hi = true -> vltb hi x = false -> r_allows (tilde_range v) x = false.
+Proof. exact tilde_spec. Qed.
+Print Assumptions C15_tilde.
+
+(* the parser builds exactly caret_range / tilde_range, and prints what it parsed *)
+Example C15_desugar :
+  exists v, parse "0.2.3rc1" = Some v /\ wf v = true /\
+    parse_single false "^0.2.3rc1" = Ok (VOne (caret_range v)) /\
+    parse_single false "~ 0.2.3rc1" = Ok (VOne (tilde_range v)) /\
+    vc_str (VOne (caret_range v)) = Ok ">=0.2.3rc1,<0.3.0" /\
+    vc_str (VOne (tilde_range v)) = Ok ">=0.2.3rc1,<0.3.0".
+Proof. eexists. repeat split; vm_compute; reflexivity. Qed.
